@@ -191,6 +191,32 @@ func runDecoders(c *ctx, types []string, pMut int, n int) {
 		walk(slots)
 		c.emit(obj{"op": "decode", "rt": rt, "slots": slots, "compiles": comp, "obs": o})
 		if again {
+			// (between the two deliveries the caller prunes what the first decode returned, as the client's interest filter
+			// does in place: what a decoder hands out is the caller's to change, the next decode is complete again)
+			recoverTo(func() {
+				switch rt {
+				case "lds":
+					m, _ := xdsresource.UnmarshalLDS(anys)
+					for k := range m {
+						delete(m, k)
+					}
+				case "rds":
+					m, _ := xdsresource.UnmarshalRDS(anys)
+					for k := range m {
+						delete(m, k)
+					}
+				case "cds":
+					m, _ := xdsresource.UnmarshalCDS(anys)
+					for k := range m {
+						delete(m, k)
+					}
+				case "eds":
+					m, _ := xdsresource.UnmarshalEDS(anys)
+					for k := range m {
+						delete(m, k)
+					}
+				}
+			})
 			c.count("redelivered", 1)
 			c.emit(obj{"op": "decode", "rt": rt, "slots": slots, "compiles": comp, "obs": decodeObs(c, rt, anys), "redelivery": true})
 		}
